@@ -56,12 +56,12 @@ theorem C11_cluster_bookkeeping_is_document (c : Cluster') (cs : CSt) (hc : cs.s
   have T := cluster_table c.kind
   simp only [clusterTableOk, Bool.and_eq_true] at T
   simp only [Cluster.valid, Cluster'.abs, Bool.and_eq_true] at hshape
-  have hstart : start .point_obs c.kind.tag = .run c.kind.handler := by cases c.kind <;> rfl
-  have e1 := start_event_ok cs .point_obs c.kind.state c.kind.tag c.attrs c.kind.handler hc hstart T.1.1.1.1.1.1
+  have hstart : start .point_obs c.kind.tag = .run c.kind.openHandler := by cases c.kind <;> rfl
+  have e1 := start_event_ok cs .point_obs c.kind.state c.kind.tag c.attrs c.kind.openHandler hc hstart T.1.1.1.1.1.1
     (by intro hn; exfalso; revert hn; cases c.kind <;> decide) hattrs (rulesOk_cluster _ _ _)
-  have hdocnames : ∀ a ∈ c.attrs, a.name ∈ docNames c.kind.handler := by
+  have hdocnames : ∀ a ∈ c.attrs, a.name ∈ docNames c.kind.openHandler := by
     have := names_of_attrsDocOk c.kind.tag c.attrs hattrs
-    have hh : tagHandler c.kind.tag = c.kind.handler := by cases c.kind <;> rfl
+    have hh : tagHandler c.kind.tag = c.kind.openHandler := by cases c.kind <;> rfl
     rwa [hh] at this
   have hseg : Seg cs (.start c.kind.tag c.attrs :: c.items.flatMap Leaf'.events) c.kind.state
       (InCluster c.inh (0 + c.count)) := by
